@@ -995,9 +995,11 @@ static int apply(const struct op *o)
 			break;
 		}
 		key_rule(o->pgno, o->subno, mn->ptype[o->pgno - 0x100], &stored, &mask);
-		/* one version (mask 0): the page's own previous copy is replaced when other versions are cached
-		   beside it (subpages, other subcodes), else the most recently used version */
-		if (mask == 0) victim = model_lookup(m, o->pgno, stored, 0xFFFF);
+		/* the page's own previous copy (same page and stored subpage number) is replaced when there is one,
+		   else the most recently used version that matches the key: a single version page stored beside
+		   other versions, or subpage 3 beside a clock page 23:03, must not replace the wrong one and leave
+		   a second copy of itself behind */
+		victim = model_lookup(m, o->pgno, stored, 0xFFFF);
 		if (!victim) victim = model_lookup(m, o->pgno, stored & mask, mask);
 		{
 			unsigned long mm = model_memory();
